@@ -24,7 +24,7 @@ ASSUMPTIONS = [
     "uuids are non-null and unique per side and camera (as the statement demands)",
     "what happens to unpaired traffic-light estimates is left open: GT-less results, if any, must be leftover estimates",
 ]
-UU = ["u1", "u2", "u3"]
+UU = ["1", "12", "2"]     # lane-id style uuids, one being a substring of another
 CAMS_TLR = ["CAM_TRAFFIC_LIGHT", "CAM_TRAFFIC_LIGHT_NEAR"]
 CAMS_GEN = ["CAM_FRONT", "CAM_BACK"]
 TLR_LABELS = ["GREEN", "RED", "UNKNOWN"]
@@ -74,8 +74,14 @@ def run_unit(unit, acc):
                 check_case(dict(path=unit["path"], E=[list(x) for x in E], G=[list(x) for x in Gs], first=first), acc)
 
 
-def _mk(path, u, c, l, score=1.0):
-    return G.mk2d(dict(roi=None, cam=c, label=l, family="traffic_light" if path != "generic" else "autoware", uuid=u, score=score))
+ALIAS = {"GREEN": "crosswalk_green", "RED": "crosswalk_red", "UNKNOWN": "crosswalk_unknown"}
+
+
+def _mk(path, u, c, l, score=1.0, alias=False):
+    o = G.mk2d(dict(roi=None, cam=c, label=l, family="traffic_light" if path != "generic" else "autoware", uuid=u, score=score))
+    if alias and path != "generic":   # the original annotation name is an alias that the converter maps onto the same label
+        o.semantic_label.name = ALIAS[l]
+    return o
 
 
 def _best(E, Gs, first):
@@ -206,9 +212,12 @@ def check_case(case, acc):
         return
 
     first = case["first"]
-    for order in (0, 1):
-        EE, GG = (E, Gs) if order == 0 else (list(reversed(E)), list(reversed(Gs)))
-        eo = [_mk(path, *x) for x in EE]
+    for order in (0, 1, 2):
+        if order == 2 and path != "tlr":
+            continue
+        EE, GG = (E, Gs) if order != 1 else (list(reversed(E)), list(reversed(Gs)))
+        # third pass (traffic lights): the estimates carry alias names (crosswalk_*) of the same labels
+        eo = [_mk(path, *x, alias=order == 2) for x in EE]
         go = [_mk(path, *x) for x in GG]
         e_in, g_in = list(eo), list(go)
         acc.exec()
